@@ -4,5 +4,6 @@ CONSTANT MaxRows = 2
 CONSTANT QFull = FALSE
 CONSTANT CliReadsFile = TRUE
 CONSTANT CliWritesText = FALSE
+CONSTANT CliOpensOutputFirst = FALSE
 INVARIANT CliEqualsLib
 CHECK_DEADLOCK FALSE
